@@ -103,6 +103,10 @@ type g struct {
 	autos   []string
 	scripts []string
 	lits    []string
+	// colonOnly: poryswitch cases use the ':' form only. Inside moves( ... ) the brace form
+	// is rejected by the compiler at b12758c ("expected movement command, but got '}'": the
+	// list parser looks for ')' as its end) - a C12 matter, noted in DESIGN.md, not ours.
+	colonOnly bool
 }
 
 func (x *g) id(prefix string) string {
@@ -466,7 +470,7 @@ func (x *g) porySwitch(inner func(brace bool) []string, forceAll bool) []string 
 			hasCur = true
 		}
 		t = append(t, v)
-		if r.Bool() {
+		if r.Bool() || x.colonOnly {
 			t = append(t, ":")
 			t = append(t, inner(false)...)
 		} else {
@@ -477,7 +481,7 @@ func (x *g) porySwitch(inner func(brace bool) []string, forceAll bool) []string 
 	}
 	if !hasCur || r.P(0.5) {
 		t = append(t, "_")
-		if r.Bool() {
+		if r.Bool() || x.colonOnly {
 			t = append(t, ":")
 			t = append(t, inner(false)...)
 		} else {
@@ -498,6 +502,13 @@ func (x *g) steps(multi bool) []string {
 	n := 1
 	if multi {
 		n = r.Range(0, 5)
+	}
+	if multi && r.P(0.1) {
+		// a list made only of poryswitch blocks (empty when nothing is selected, e.g. in lint mode)
+		for k := r.Range(1, 2); k > 0; k-- {
+			t = append(t, x.porySwitch(func(brace bool) []string { return x.steps(false) }, false)...)
+		}
+		return t
 	}
 	for i := 0; i < n; i++ {
 		if multi && r.P(x.c.PPorySw*0.5) {
@@ -527,6 +538,12 @@ func (x *g) martItems(multi bool) []string {
 	n := 1
 	if multi {
 		n = r.Range(0, 5)
+	}
+	if multi && r.P(0.1) {
+		for k := r.Range(1, 2); k > 0; k-- {
+			t = append(t, x.porySwitch(func(brace bool) []string { return x.martItems(false) }, false)...)
+		}
+		return t
 	}
 	for i := 0; i < n; i++ {
 		if multi && r.P(x.c.PPorySw*0.5) {
@@ -567,7 +584,9 @@ func (x *g) command() []string {
 			t = append(t, x.textValue()...)
 		case r.P(x.c.PMoves):
 			t = append(t, "moves", "(")
+			x.colonOnly = r.P(0.9)
 			t = append(t, x.steps(true)...)
+			x.colonOnly = false
 			t = append(t, ")")
 		case r.P(0.15):
 			t = append(t, "(", "A", "+", "1", ")", "*", "2")
